@@ -1,5 +1,6 @@
-(* C19 part B - VALUE-FLOW model of solvor/bfgs.py: bfgs(), lbfgs() (objective_fn given; powell: B_Powell.v).  Definitions only.  These solvers do not use the Evaluator; the stream holds the raw
-   user values of the objective calls in call order (est0 user_values), identity = index of the call.
+(* C19 part B - VALUE-FLOW model of solvor/bfgs.py: bfgs(), lbfgs() with objective_fn given (powell: B_Powell.v).
+   Definitions only.  These solvers do not use the Evaluator; the stream holds the raw user values of the
+   objective calls in call order (est0 user_values), identity = index of the call.
    The property for them is only: the reported objective is the objective of exactly the returned point.
 
    ABSTRACTED (stated in the harness notes):
